@@ -85,6 +85,9 @@ def build(cfg, log_starts, log_aux, kseed):
         "KwikSort": lambda: KwikSortRandom(),
         "BioConsert": lambda: BioConsert(),
         "BioCo": lambda: BioCo(),
+        "Bio[]": lambda: BioConsert(starting_algorithms=[]),          # explicitly no starting algorithm
+        "Bio()": lambda: BioConsert(starting_algorithms=()),
+        "ParCons(b0,Bio[])": lambda: ParCons(auxiliary_algorithm=ra(BioConsert([])), bound_for_exact=0),
         "Bio[Borda]": lambda: BioConsert([rs(BordaCount())]),
         "Bio[Copeland,KwikSort]": lambda: BioConsert([rs(CopelandMethod()), rs(KwikSortRandom())]),
         "Bio[PickAPerm]": lambda: BioConsert([rs(PickAPerm())]),
@@ -132,7 +135,7 @@ def build(cfg, log_starts, log_aux, kseed):
 
 
 NEEDS_CPLEX = ("ExactCplex(opt)", "ExactCplex(noopt)", "ExactOptim1")
-ALL_CONFIGS = ["Borda", "BordaBid", "Copeland", "PickAPerm", "KwikSort", "BioConsert", "BioCo", "Bio[Borda]",
+ALL_CONFIGS = ["Borda", "BordaBid", "Copeland", "PickAPerm", "KwikSort", "BioConsert", "Bio[]", "Bio()", "ParCons(b0,Bio[])", "BioCo", "Bio[Borda]",
                "Bio[Copeland,KwikSort]", "Bio[PickAPerm]", "Bio[PickAPerm,Copeland]", "Bio[Borda,BordaBid]",
                "Bio[Borda,Copeland,KwikSort]", "ParCons", "ParCons(b0,BioConsert)", "ParCons(b1,KwikSort)",
                "ParCons(b2,Borda)", "ParCons(b3,BioConsert)", "ParCons(b0,BioCo)", "ParCons(b0,ParCons(b0,Borda))", "ParCons(b80,rec)",
@@ -319,8 +322,10 @@ def run_case(case):
             from corankco.ranking import Ranking
             cons = Consensus([Ranking(am.norm_ranking(c)) for c in case["cands"]], dataset=ds, scoring_scheme=ss)
         else:
+            # bench = 1: the documented bench_mode parameter is on (less information may be attached to the consensus, the
+            # consensus itself and the refusals are the same)
             cons = core.with_alarm(case.get("timeout", 60), alg.compute_consensus_rankings, ds, ss,
-                                   bool(case["flag"]))
+                                   bool(case["flag"]), *([True] if case.get("bench") == 1 else []))
     except core.Timeout:
         rec["out"] = "timeout"
         return rec
